@@ -195,11 +195,11 @@ class Ctx:
                     n += 1
         return n
 
-    def validate(self, module, tracefile, cfg=None, timeout=3600, subdir=None, expect_events=None, extra_files=None):
+    def validate(self, module, tracefile, cfg=None, timeout=3600, subdir=None, expect_events=None, extra_files=None, heap=None):
         """Trace validation: returns list of deviation dicts.  The trace must be fully consumed."""
         files = {"trace.ndjson": tracefile}
         files.update(extra_files or {})
-        r = self.tlc(module, cfg, workers=1, timeout=timeout, subdir=subdir, files=files)
+        r = self.tlc(module, cfg, workers=1, timeout=timeout, subdir=subdir, files=files, heap=heap)
         devs = []
         done = None
         for p in r["prints"]:
@@ -245,10 +245,16 @@ class Ctx:
                 f.writelines(lines[cuts[k]:cuts[k + 1]])
             jobs.append((k, pf, cuts[k]))
         n0 = len(self.tlc_runs)
+        # the parallel JVMs share the machine: half of the memory, divided among them (at least 1 GB each)
+        try:
+            total_mb = int(re.search(r"MemTotal:\s+(\d+)", open("/proc/meminfo").read()).group(1)) // 1024
+        except Exception:
+            total_mb = 16384
+        heap = "%dm" % max(1024, total_mb // 2 // max(1, len(jobs)))
 
         def one(job):
             k, pf, off = job
-            r = self.validate(module, pf, cfg=cfg, timeout=timeout, subdir="v%d_%d" % (n0, k), extra_files=extra_files)
+            r = self.validate(module, pf, cfg=cfg, timeout=timeout, subdir="v%d_%d" % (n0, k), extra_files=extra_files, heap=heap)
             for d in r["devs"]:
                 if isinstance(d.get("l"), int):
                     d["l"] += off
